@@ -189,5 +189,7 @@ example :
     control skeleton the model was written against (`Proofs/Skeletons.lean`, one `rfl` per function
     or clause; DESIGN.md §11.6a) -/
 theorem dispatch_skeletons : Skeletons.DispatchShape := Skeletons.dispatch_shape
+theorem f_tailer_tail_skeletons : Skeletons.F_tailer_tailShape := Skeletons.f_tailer_tail_shape
+theorem f_logstream_logstream_skeletons : Skeletons.F_logstream_logstreamShape := Skeletons.f_logstream_logstream_shape
 
 end MtailVerif.C18
